@@ -228,6 +228,8 @@ def run(repo: Repo, rep: Report, tier: str) -> None:
     # ---- the role the selector filters on is the negotiated one ---------------------------------------
     from ..delegate import delegate
     rep.rule("codec-flags", "every encode / decode call takes all three flags from one transfer-syntax object (C25's rule)")
+    rep.rule("message-direction", "a response is sent as a response message whatever its Message ID (C20's response-direction / none-not-falsy)")
+    delegate(repo, rep, tier, "C20", ("response-direction", "none-not-falsy"), "message-direction", "the response to a request with Message ID 0 is encoded with the *request* message class: an SCP-only acceptor sends C-ECHO-RQ / C-STORE-RQ / C-FIND-RQ on a context where it does not hold the SCU role")
     delegate(repo, rep, tier, "C25", ("codec-flags",), "codec-flags", "the data set is not encoded with the transfer syntax of the context it is sent on")
     rep.rule("role-source", "as_scu / as_scp of every accepted context come from the role negotiation of that context (C11's every-context and normalisation rules)")
     delegate(repo, rep, tier, "C11", ("iteration-independent", "complementary", "requestor-view"), "role-source", "the acceptor records a role on a context that the negotiation of that context did not give it (a value left over from the previous context): _get_valid_context then offers the context for sending although pynetdicom is not the SCU on it - a C-STORE sub-operation goes out on a context where the peer is not the SCP")
